@@ -18,7 +18,15 @@ def use_repo():
         sys.path.insert(0, REPO)
     if os.path.isdir(DEPS) and DEPS not in sys.path:
         sys.path.append(DEPS)
-    logging.disable(logging.CRITICAL)
+    # keep the library (and everything else) quiet without switching logging off: the library's log level is one of the
+    # things the workers vary (a handler-less logger would fall back to printing warnings on stderr)
+    root = logging.getLogger()
+    if not any(isinstance(h, logging.NullHandler) for h in root.handlers):
+        root.addHandler(logging.NullHandler())
+    lib = logging.getLogger("mysensors")
+    if not any(isinstance(h, logging.NullHandler) for h in lib.handlers):
+        lib.addHandler(logging.NullHandler())
+    lib.propagate = False
     import mysensors  # noqa
 
     got = os.path.dirname(os.path.dirname(os.path.abspath(mysensors.__file__)))
